@@ -1,19 +1,10 @@
-/* unit xml_entities: encodeUtf8 (RFC 3629, full domain) and appendCharRef */
+/* unit xml_entities: encodeUtf8 (RFC 3629, full domain) and appendCharRef (with the ghost accumulator of the mathematical value) */
 #include "iora_xml.h"
-size_t GD; char GDC;   /* arbitrary ghost index into the entity body and the byte there (defined by the precondition) */
-/* RFC 3629 section 3 table, written arithmetically (independent of the shifts in the code) */
-#define UTF8_VALID(cp) ((cp) <= 0x10FFFFu && !((cp) >= 0xD800u && (cp) <= 0xDFFFu))
-#define UTF8_LEN(cp) ((cp) <= 0x7Fu ? (size_t)1 : (cp) <= 0x7FFu ? (size_t)2 : (cp) <= 0xFFFFu ? (size_t)3 : (size_t)4)
-#define UTF8_CONT(x) (128u + ((x) % 64u))
-#define UTF8_BYTE(cp, k) ((cp) <= 0x7Fu ? (cp) \
-  : (cp) <= 0x7FFu ? ((k) == 0 ? 192u + (cp) / 64u : UTF8_CONT(cp)) \
-  : (cp) <= 0xFFFFu ? ((k) == 0 ? 224u + (cp) / 4096u : (k) == 1 ? UTF8_CONT((cp) / 64u) : UTF8_CONT(cp)) \
-  : ((k) == 0 ? 240u + (cp) / 262144u : (k) == 1 ? UTF8_CONT((cp) / 4096u) : (k) == 2 ? UTF8_CONT((cp) / 64u) : UTF8_CONT(cp)))
-#define IS_DEC(c) ((c) >= (char)48 && (c) <= (char)57)
-#define IS_HEX(c) (IS_DEC(c) || ((c) >= (char)97 && (c) <= (char)102) || ((c) >= (char)65 && (c) <= (char)70))
-#define IORA_LOOP_Parser_appendCharRef_1 IORA_LC( __CPROVER_assigns(i, code) \
-  __CPROVER_loop_invariant(i >= 2 && i <= entBody.n && ((GD >= 2 && GD < i) ==> IS_HEX(GDC))) \
+#include "contracts.h"
+#define ACR_LOOP(FIRST, ISDIGIT) IORA_LC( __CPROVER_assigns(i, code, G_val) \
+  __CPROVER_loop_invariant(i >= FIRST && i <= entBody.n && ((GD >= FIRST && GD < i) ==> ISDIGIT(GDC))) \
+  __CPROVER_loop_invariant(G_val <= 0xFFFFFFFFull ==> code == G_val) \
+  __CPROVER_loop_invariant(G_val <= 0xFFFFFFFFFFull) \
   __CPROVER_decreases(entBody.n - i))
-#define IORA_LOOP_Parser_appendCharRef_2 IORA_LC( __CPROVER_assigns(i, code) \
-  __CPROVER_loop_invariant(i >= 1 && i <= entBody.n && ((GD >= 1 && GD < i) ==> IS_DEC(GDC))) \
-  __CPROVER_decreases(entBody.n - i))
+#define IORA_LOOP_Parser_appendCharRef_1 ACR_LOOP(2, IS_HEX)
+#define IORA_LOOP_Parser_appendCharRef_2 ACR_LOOP(1, IS_DEC)
